@@ -96,7 +96,9 @@ pub fn update_baseline_from_results(
     };
 
     for result in results {
-        if !result.is_failed() {
+        // Grandfathered results are still violations: they were `Failed` until the
+        // baseline comparison ran (when updating with the existing baseline loaded).
+        if !result.is_failed() && !result.is_grandfathered() {
             continue;
         }
 
